@@ -190,7 +190,7 @@ func (s *segReader) Read(p []byte) (int, error) {
 
 func runC09(ctx *Ctx) error {
 	r, res := ctx.Rng, ctx.Res
-	res.Rule = "cases: (a) messages built through the public API (0..4 To/Cc in callsign / @winlink.org / SMTP forms and mixed case, ASCII and Latin-1 subjects and attachment names, any minute, text bodies incl. empty lines, 0..4 attachments with CRLF/NUL/empty/binary content, extra X- headers): Bytes() vs model message_write; ReadFrom through whole / 1-byte / random-chunk readers vs model read_from; oracle: parse(serialise m) = m, serialise(parse(serialise m)) = serialise m, accessors return what was set. (b) address strings vs model. (c) mutated serialisations (sizes, truncation, line edits): ReadFrom status vs model (skipped when the Date is outside the modelled layouts). Non-trivial: message with an attachment or a non-ASCII subject; distinct by serialised bytes."
+	res.Rule = "cases: (a) messages built through the public API (0..4 To/Cc in callsign / @winlink.org / SMTP forms and mixed case, ASCII and Latin-1 subjects and attachment names (also ASCII names containing a control character or DEL), any minute, text bodies incl. empty lines, 0..4 attachments with CRLF/NUL/empty/binary content, extra X- headers): Bytes() vs model message_write; ReadFrom through whole / 1-byte / random-chunk readers vs model read_from; oracle: parse(serialise m) = m, serialise(parse(serialise m)) = serialise m, accessors return what was set. (b) address strings vs model. (c) mutated serialisations (sizes, truncation, line edits): ReadFrom status vs model (skipped when the Date is outside the modelled layouts). Non-trivial: message with an attachment or a non-ASCII subject; distinct by serialised bytes."
 	var lines, impl []string
 	var cases []interface{}
 	push := func(line, obs string, cs interface{}) {
@@ -257,6 +257,10 @@ func runC09(ctx *Ctx) error {
 				name = "\u00a0" + name + "ø"
 			case 3:
 				name = " æ" + name
+			case 4:
+				// an all-ASCII name with a control character or DEL inside (names come from file
+				// systems): such bytes must not reach the header block raw
+				name = r.StringFrom(alnum, 1+r.Intn(6)) + []string{"\x01", "\n", "\x7f", "\r", "\x1b", "\x00"}[r.Intn(6)] + r.StringFrom(alnum, 1+r.Intn(6)) + ".txt"
 			}
 			s.Files = append(s.Files, c09File{name, data})
 		}
